@@ -263,6 +263,8 @@ def jobs_for(pid, tier, seed):
         J.append({'name': 'recycle() of the standalone, sentinel and cluster managers: commands sent, echo check, freshness over 2-3 recycles', 'kind': 'redisrecycle', 'cfg': {}, 'crates': ['deadpool', 'deadpool_redis']})
     elif pid == 'C19':
         J.append({'name': 'redis / cluster / sentinel builder(), Default impls and From conversions', 'kind': 'redisconfig', 'cfg': {}, 'crates': ['deadpool', 'deadpool_redis']})
+        J.append({'name': 'serde round trip of PoolConfig / Timeouts / QueueMode and defaults of omitted sections (Kani harnesses on the derived impls, one per document shape)',
+                  'kind': 'kani_serde', 'cfg': {}, 'crates': ['deadpool']})
     elif pid == 'C18':
         n = 4 if q else 8
         for i in range(n):
@@ -466,6 +468,9 @@ def run(job):
     if job['kind'] == 'redisconfig':
         from . import w_redisconfig
         return w_redisconfig.run_c19(prog, job)
+    if job['kind'] == 'kani_serde':
+        from . import w_serde
+        return w_serde.run_serde(prog, job)
     if job['kind'] == 'pgconfig':
         from . import w_pgconfig
         return w_pgconfig.run_c18(prog, job)
